@@ -238,18 +238,22 @@ def checkNoInc (lines : List (List Char)) (chk : Asm.Assembly → Bool) : Bool :
          | some ss2 =>
            match Asm.pcrLoop (ss2.length + 1) ss2 with
            | .ok ss3 =>
-             match Asm.assignAddrs ss3 0 with
-             | .ok ss4 =>
-               match Asm.fixAll ss4 0 ss4 with
-               | .ok ss5 =>
-                 match Asm.finalSymTab ss5 t with
-                 | .ok t' =>
-                   chk { stmts := ss5, symtab := t',
-                         origin := ss5.foldl (fun o s => if s.row.isOrigin then s.pkg.address else o) Asm.Value.none,
-                         name := ss5.foldl (fun o s => if s.row.isName then some s.operand.text else o) none }
-                 | _ => false
-               | _ => false
-             | _ => false
+             Asm.orgOK ss3 false &&
+             (match Asm.assignAddrs ss3 0 with
+              | .ok ss4 =>
+                match Asm.fixAll ss4 0 ss4 with
+                | .ok ss5 =>
+                  match Asm.evalSyms ss5 t t with
+                  | .ok t1 =>
+                    match Asm.finalSymTab ss5 t1 with
+                    | .ok t' =>
+                      chk { stmts := ss5, symtab := t',
+                            origin := ss5.foldl (fun o s => if s.row.isOrigin then s.pkg.address else o) Asm.Value.none,
+                            name := ss5.foldl (fun o s => if s.row.isName then some s.operand.text else o) none }
+                    | _ => false
+                  | _ => false
+                | _ => false
+              | _ => false)
            | _ => false)
   | _ => false
 
@@ -278,18 +282,26 @@ theorem checkNoInc_sound {fs : Asm.Files} {lines : List (List Char)} {chk : Asm.
           simp only [h3] at h ⊢
           cases h4 : Asm.pcrLoop (ss2.length + 1) ss2 with
           | ok ss3 =>
-            simp only [h4] at h ⊢
+            simp only [h4, Bool.and_eq_true] at h ⊢
+            obtain ⟨horg, h⟩ := h
+            simp only [horg, Bool.not_true, Bool.false_eq_true, if_false]
             cases h5 : Asm.assignAddrs ss3 0 with
             | ok ss4 =>
               simp only [h5] at h ⊢
               cases h6 : Asm.fixAll ss4 0 ss4 with
               | ok ss5 =>
                 simp only [h6] at h ⊢
-                cases h7 : Asm.finalSymTab ss5 t with
-                | ok t' => simp only [h7] at h ⊢; exact ⟨_, rfl, h⟩
-                | diag => simp [h7] at h
-                | internal => simp [h7] at h
-                | diverged => simp [h7] at h
+                cases h6e : Asm.evalSyms ss5 t t with
+                | ok t1 =>
+                  simp only [h6e] at h ⊢
+                  cases h7 : Asm.finalSymTab ss5 t1 with
+                  | ok t' => simp only [h7] at h ⊢; exact ⟨_, rfl, h⟩
+                  | diag => simp [h7] at h
+                  | internal => simp [h7] at h
+                  | diverged => simp [h7] at h
+                | diag => simp [h6e] at h
+                | internal => simp [h6e] at h
+                | diverged => simp [h6e] at h
               | diag => simp [h6] at h
               | internal => simp [h6] at h
               | diverged => simp [h6] at h
@@ -302,5 +314,65 @@ theorem checkNoInc_sound {fs : Asm.Files} {lines : List (List Char)} {chk : Asm.
   | diag => simp [hp] at h
   | internal => simp [hp] at h
   | diverged => simp [hp] at h
+
+/-- a program without INCLUDE reaches the address loop and is stopped there by the ORG check (`orgOK`), computed
+without `expand` -/
+def orgRejectedNoInc (lines : List (List Char)) : Bool :=
+  match Asm.parseLines lines with
+  | .ok parsed =>
+    parsed.all (fun s => !s.row.isInclude) &&
+    (match Asm.buildSymTab parsed 0 [] with
+     | none => false
+     | some t =>
+       match Asm.resolveAll t parsed with
+       | none => false
+       | some ss1 =>
+         match Asm.translateAll ss1 with
+         | none => false
+         | some ss2 =>
+           match Asm.pcrLoop (ss2.length + 1) ss2 with
+           | .ok ss3 => !Asm.orgOK ss3 false
+           | _ => false)
+  | _ => false
+
+theorem orgRejectedNoInc_sound {fs : Asm.Files} {lines : List (List Char)}
+    (h : orgRejectedNoInc lines = true) : Asm.assemble fs lines = .diag := by
+  unfold orgRejectedNoInc at h
+  unfold Asm.assemble
+  cases hp : Asm.parseLines lines with
+  | ok parsed =>
+    simp only [hp, Bool.and_eq_true] at h
+    obtain ⟨hall, h⟩ := h
+    have hni : ∀ s ∈ parsed, s.row.isInclude = false := by
+      intro s hs; simpa using List.all_eq_true.mp hall s hs
+    simp only [expand_noinc fs 63 [] parsed hni]
+    cases h1 : Asm.buildSymTab parsed 0 [] with
+    | none => simp [h1] at h
+    | some t =>
+      simp only [h1] at h ⊢
+      cases h2 : Asm.resolveAll t parsed with
+      | none => simp [h2] at h
+      | some ss1 =>
+        simp only [h2] at h ⊢
+        cases h3 : Asm.translateAll ss1 with
+        | none => simp [h3] at h
+        | some ss2 =>
+          simp only [h3] at h ⊢
+          cases h4 : Asm.pcrLoop (ss2.length + 1) ss2 with
+          | ok ss3 =>
+            simp only [h4] at h ⊢
+            simp only [h, if_true]
+          | diag => simp [h4] at h
+          | internal => simp [h4] at h
+          | diverged => simp [h4] at h
+  | diag => simp [hp] at h
+  | internal => simp [hp] at h
+  | diverged => simp [hp] at h
+
+/-- a rejected program: `main` exits with status 1 and leaves the host file system alone, whatever the switches -/
+theorem asmMain_diag {fs : FS} {incl : Asm.Files} {lines : List (List Char)} {args : AsmArgs}
+    (ha : Asm.assemble incl lines = .diag) : asmMain fs incl lines args = { exit := 1, fs := fs } := by
+  unfold asmMain
+  simp only [ha]
 
 end CoCo.VF
